@@ -18,6 +18,13 @@ Gate(sum, want, hashNil) ==
   ELSE IF hashNil THEN "ErrNoHash"
   ELSE IF sum = want THEN "launch"
   ELSE "ErrMismatch"
+\* With a custom runner (RunnerFunc) there is no command path: the check is applied to the empty
+\* path, there is no file whose digest could match, and nothing is ever launched.
+GatePathless(want, hashNil) ==
+  IF Len(want) = 0 THEN "ErrNoChecksum"
+  ELSE IF hashNil THEN "ErrNoHash"
+  ELSE "ErrNoFile"
+ASSUME \A w \in Strs(MaxLen + 1), hn \in BOOLEAN : GatePathless(w, hn) # "launch"
 
 \* how a configured checksum relates to the true digest (the classes the drivers concretise)
 Class(sum, want) ==
